@@ -1,6 +1,6 @@
 """Adapter for spec/CodecContract.tla <-> cssutils.codec (C07)."""
 import sys, codecs, io
-sys.path.insert(0, "/repo")
+sys.path.insert(0, __import__("os").environ.get("VERIF_REPO", "/repo"))
 import cssutils.codec as cc  # noqa: E402  (registers the 'css' codec)
 
 BYTE = {"EF": [0xEF], "BB": [0xBB], "BF": [0xBF], "FF": [0xFF], "FE": [0xFE], "00": [0x00], "@": [0x40], "c": [0x63], "h": [0x68],
